@@ -416,7 +416,17 @@ func (d *Dialer) netDialFn(ctx context.Context, proxyURL *url.URL, backendURL *u
 	}
 	// Proxy dialing is wrapped to implement CONNECT method and possibly proxy auth.
 	if proxyURL != nil {
-		return proxyFromURL(proxyURL, netDial)
+		netDial, err := proxyFromURL(proxyURL, netDial)
+		if err != nil {
+			return nil, err
+		}
+		// The proxy dialer may clear the connection deadline when it is done
+		// (the SOCKS5 dialer does). Set the deadline again so that it also
+		// covers the rest of the handshake.
+		if deadline, ok := ctx.Deadline(); ok {
+			netDial = netDialWithDeadline(netDial, deadline)
+		}
+		return netDial, nil
 	}
 	return netDial, nil
 }
